@@ -176,45 +176,41 @@ func r11e(c *core.Ctx) {
 // ---------- R12f: the address handed to ECS / cache-group consumers is the client's ----------
 
 func r12f(c *core.Ctx) {
+	// sinks: what turns an address into the ECS option and into the cache's client group
+	sinks := []*ssa.Function{c.Anchor("app/router", "makeEdns0ClientSubnetReqOpt"), c.Anchor("app/router", "(*cacheCtl).ipMark")}
 	n := 0
-	for _, fn := range c.SrcFuncs() {
-		for _, call := range core.Calls(fn) {
-			callee := core.StaticCallee(call)
-			if callee == nil || !core.ModuleFn(callee) {
-				continue
-			}
-			args := core.CallArgs(call)
-			for i, p := range callee.Params {
-				if p.Name() != "remoteAddr" || i >= len(args) || p.Type().String() != "net/netip.Addr" {
-					continue
-				}
-				n++
-				a := args[i]
-				e := core.Expr(a)
-				ok := false
+	for _, sink := range sinks {
+		if sink == nil {
+			continue
+		}
+		ai := len(sink.Params) - 1 // the address is the last parameter of both sinks
+		for _, s := range c.CallSitesOf(sink) {
+			a := core.CallArgs(s.Call)[ai]
+			os := core.Origins(a, core.OriginOpts{Prog: c.Prog, ThroughPar: true, Depth: 6})
+			var bad, good []string
+			for _, o := range os {
+				e := core.Expr(o)
 				switch {
 				case strings.Contains(e, "LocalAddr"):
-					ok = false
-				case strings.Contains(e, "RemoteAddr"), e == "remoteAddr", strings.HasPrefix(e, "remoteAddr."), strings.Contains(e, "phi@remoteAddr"):
-					ok = true
+					bad = append(bad, e)
+				case strings.Contains(e, "RemoteAddr"):
+					good = append(good, e)
 				default:
-					// a parameter or local named remoteAddr / derived from the peer address
-					for _, o := range core.Origins(a, core.OriginOpts{}) {
-						if pp, isPar := o.(*ssa.Parameter); isPar && strings.Contains(strings.ToLower(pp.Name()), "remote") {
-							ok = true
-						}
-						if strings.Contains(core.Expr(o), "RemoteAddr") || strings.Contains(core.Expr(o), "remoteAddr") {
-							ok = true
-						}
+					if _, isPar := o.(*ssa.Parameter); isPar {
+						// a parameter without static callers (exported entry / interface method): the callers' duty
+						good = append(good, e+" (parameter)")
+						continue
 					}
+					bad = append(bad, e)
 				}
-				c.Check(ok, fmt.Sprintf("client-address:%s->%s#%d", core.FuncName(fn), core.BaseName(callee), n), call.Pos(), fn,
-					"a parameter named remoteAddr (ECS subnet, cache client group, prefetch key) receives the peer's address, never the local one", e)
 			}
+			n++
+			c.Check(len(bad) == 0 && len(good) > 0, fmt.Sprintf("client-address:%s->%s#%d", core.FuncName(s.Fn), core.BaseName(sink), n), s.Call.Pos(), s.Fn,
+				"the address that becomes the ECS subnet / the cache's client group is the peer's (RequestContext.RemoteAddr), through every caller — never the local address", "origins: "+strings.Join(dedup(append(good, bad...)), "; "))
 		}
 	}
-	if n < 6 {
-		c.Unknown("remoteAddr-sites", 0, nil, "at least 6 call sites pass a remoteAddr netip.Addr", fmt.Sprint(n))
+	if n < 4 {
+		c.Unknown("address-sinks", 0, nil, "at least 4 call sites of the ECS / client-group sinks", fmt.Sprint(n))
 	}
 }
 
